@@ -1128,7 +1128,7 @@ static inline void plain_access (uintptr_t addr, size_t size, bool is_write, uin
 	}
 	if (addr < 4096) {
 		char sig[160]; snprintf (sig, sizeof (sig), "crash:assert:%s", simrt_fn_name (pc));
-		raise_verdict (RT_V_CRASH, addr, sig, "ASSERT failed (null store) in %s by T%d (api %s, pc +%#lx)",
+		raise_verdict (RT_V_CRASH, addr, sig, "store to the null page in %s by T%d (api %s, pc +%#lx): a failed ASSERT or a NULL dereference",
 			       simrt_fn_name (pc), curtid (), api_of (g_cur), (unsigned long) (pc - g_mod_lo));
 	}
 	Fiber *f = g_cur;
